@@ -19,6 +19,7 @@ RULE = (
     "the direction of travel, |step| <= h + 1e-9, |sum - difference| <= 1e-9. distinct = distinct (runtime, h, from, to) "
     "moves; non-trivial = moves with from != to."
     " The C++ runtime is explored for all four control x calibration instantiations in both tiers (quick: two of them on a reduced step / start-time menu)."
+    " The Python stand-in carries a real formak Config (for three step sizes with every field away from its default)."
 )
 ASSUMPTIONS = [
     "times of moderate magnitude (|t| <= 1000 + 8h) so that 1e-9 s exceeds the spacing of doubles",
